@@ -63,6 +63,8 @@ type caseResult struct {
 	gitCmp   obs
 	loop     obs
 	runOp    string
+	diffOp   string   // T op: the harness's own tree diff (with arbitrary rename pairings)
+	wantList []string // the change list the trees prescribe: "M p" / "D p"
 	files    []fileCmp
 	abort    bool
 	expected []Diag
@@ -136,6 +138,20 @@ func runCase(idx int, in *caseInput) *caseResult {
 	var ops []string
 	ops = append(ops, fmt.Sprint(len(res.changes)))
 	var orders []string
+	ordOf := map[string]string{}
+	orderFor := func(p string) (string, error) {
+		if o, ok := ordOf[p]; ok {
+			return o, nil
+		}
+		fs, err := summarize(dir, oldMods[p])
+		if err != nil {
+			return "", err
+		}
+		o := fs.ordersOp(r)
+		ordOf[p] = o
+		orders = append(orders, escPath(p)+" "+o)
+		return o, nil
+	}
 	var all []verifhook.Diagnostic
 	for _, c := range res.changes {
 		if c.Action == "insert" {
@@ -152,8 +168,11 @@ func runCase(idx int, in *caseInput) *caseResult {
 			res.internal = err.Error()
 			return res
 		}
-		ord := fs.ordersOp(r)
-		orders = append(orders, escPath(c.File)+" "+ord)
+		ord, err := orderFor(c.File)
+		if err != nil {
+			res.internal = err.Error()
+			return res
+		}
 		var to *compile.Module
 		toSum := modSum{path: c.File}
 		if c.Action == "modify" {
@@ -186,7 +205,40 @@ func runCase(idx int, in *caseInput) *caseResult {
 		all = append(all, pass.Lints()...)
 	}
 	res.loop = lintsToObs(dir, all, res.abort)
-	// R op: changes, both trees (every file), orders of the changed files
+	// the tree diff as the harness sees it: a file that keeps its path and changes content is
+	// modified; a path that disappears was deleted — whether or not go-git pairs it with an
+	// added file as a rename, so the pairing is drawn at random here
+	var added []string
+	for _, p := range sortedKeys(newFiles) {
+		if _, ok := oldFiles[p]; !ok {
+			added = append(added, p)
+		}
+	}
+	var diffToks []string
+	for _, p := range sortedKeys(oldFiles) {
+		if nc, ok := newFiles[p]; ok {
+			if nc == oldFiles[p] {
+				continue
+			}
+			res.wantList = append(res.wantList, "M "+p)
+			diffToks = append(diffToks, escPath(p)+" "+escPath(p))
+		} else {
+			res.wantList = append(res.wantList, "D "+p)
+			if len(added) > 0 && r.Bool() {
+				diffToks = append(diffToks, escPath(p)+" "+escPath(added[r.Intn(len(added))]))
+			} else {
+				diffToks = append(diffToks, escPath(p)+" -")
+			}
+		}
+		if _, err := orderFor(p); err != nil {
+			res.internal = err.Error()
+			return res
+		}
+	}
+	var tail []string
+	// both trees (every file), orders of the changed files
+	ops0 := ops
+	ops = nil
 	ops = append(ops, fmt.Sprint(len(oldMods)))
 	for _, p := range sortedKeys(oldFiles) {
 		s, err := summarize(dir, oldMods[p])
@@ -207,7 +259,9 @@ func runCase(idx int, in *caseInput) *caseResult {
 	}
 	ops = append(ops, fmt.Sprint(len(orders)))
 	ops = append(ops, orders...)
-	res.runOp = "R " + strings.Join(ops, " ")
+	tail = ops
+	res.runOp = "R " + strings.Join(append(ops0, tail...), " ")
+	res.diffOp = "T " + strings.Join(append(append([]string{fmt.Sprint(len(diffToks))}, diffToks...), tail...), " ")
 
 	res.expected = expected(in.Old, in.New)
 	res.litExtra = literalReadingExtra(in.Old, in.New)
@@ -217,15 +271,13 @@ func runCase(idx int, in *caseInput) *caseResult {
 // ---- evaluation ----
 
 const (
-	idAbort = "D30"
-	idBase  = "D31"
-	idQual  = "D32"
+	idBase = "D31"
+	idQual = "D32"
 )
 
 var knownWhat = map[string]string{
-	idAbort: "a commit in which go-git pairs a deleted .thrift file with an added one (a rename, or an unrelated delete+add) makes git.Compare compile the OLD path in the NEW tree: thriftbreak aborts with 'could not read file', exit 1, prints no diagnostic at all (diagnostics of other files are lost)",
-	idBase:  "service diagnostics of a file in a sub-directory carry only the base name: 'deleting service' uses filepath.Base (pinned by internal/git/git_test.go), 'removing method' relativises an already relative path a second time and falls back to the base name; struct diagnostics of the same file carry the relative path",
-	idQual:  "a field whose declared type changes from x.Foo to y.Foo (same last component, different include qualifier, i.e. a different type) is not reported: compare uses TypeSpec.ThriftName(), which drops the qualifier",
+	idBase: "the 'deleting service' diagnostic of a file in a sub-directory carries only the base name (compare.go service() uses filepath.Base; pinned by internal/git/git_test.go); 'removing method' and the struct diagnostics of the same file carry the relative path",
+	idQual: "a field whose declared type changes from x.Foo to y.Foo (same last component, different include qualifier, i.e. a different type) is not reported: compare uses TypeSpec.ThriftName(), which drops the qualifier",
 }
 
 type verdict struct {
@@ -255,7 +307,7 @@ func judge(res *caseResult) (known map[string]bool, fails []string) {
 			matched[k] = true
 			continue
 		}
-		if (e.Class == "DS" || e.Class == "RM") && strings.Contains(e.File, "/") {
+		if e.Class == "DS" && strings.Contains(e.File, "/") {
 			b := e
 			b.File = baseOf(e.File)
 			if impl[b.key()] {
@@ -280,10 +332,6 @@ func judge(res *caseResult) (known map[string]bool, fails []string) {
 	}
 	if o.exit != 0 && o.exit != 1 {
 		fails = append(fails, fmt.Sprintf("exit status %d", o.exit))
-	}
-	if res.abort && o.exit == 1 && len(o.diags) == 0 && len(fails) > 0 {
-		// the whole run was aborted by the rename handling: one known finding explains every failure
-		return map[string]bool{idAbort: true}, nil
 	}
 	if len(res.in.Kinds) == 0 && len(res.expected) > 0 {
 		fails = append(fails, "ORACLE-INCONSISTENT: an empty edit script with expected diagnostics")
@@ -497,7 +545,7 @@ func runBatch(rep *report.Report, drv string, cases []*caseInput, corpusCases, o
 		if res.skipped != "" || res.internal != "" {
 			continue
 		}
-		ops = append(ops, res.runOp)
+		ops = append(ops, res.runOp, res.diffOp)
 		for _, f := range res.files {
 			ops = append(ops, f.op)
 		}
@@ -550,6 +598,20 @@ func runBatch(rep *report.Report, drv string, cases []*caseInput, corpusCases, o
 		}
 		if modelRun != implRun {
 			dis("model vs thriftbreak (run)", implRun, modelRun+"   op: "+res.runOp, "")
+		}
+		if modelDiff := answers[k]; modelDiff != implRun {
+			dis("model vs thriftbreak (from the tree diff)", implRun, modelDiff+"   op: "+res.diffOp, "")
+		}
+		k++
+		var got []string
+		for _, c := range res.changes {
+			got = append(got, map[string]string{"modify": "M ", "delete": "D ", "insert": "I "}[c.Action]+c.File)
+		}
+		sort.Strings(got)
+		want := append([]string(nil), res.wantList...)
+		sort.Strings(want)
+		if strings.Join(got, ",") != strings.Join(want, ",") {
+			dis("changed-file list", strings.Join(got, ","), "", "findChangedThrift must list a changed file that keeps its path as modified and every path that disappears (deleted or renamed) as deleted; expected "+strings.Join(want, ","))
 		}
 		for _, f := range res.files {
 			if answers[k] != f.impl {
@@ -628,7 +690,7 @@ func finish(rep *report.Report, replay string, known map[string]int, skipped, in
 		rep.Known = append(rep.Known, report.Known{ID: id, What: fmt.Sprintf("%s (reproduced on %d cases of this run)", knownWhat[id], known[id])})
 	}
 	if replay == "" {
-		for _, id := range []string{idAbort, idBase, idQual} {
+		for _, id := range []string{idBase, idQual} {
 			if known[id] == 0 {
 				rep.Notes = append(rep.Notes, "known finding "+id+" was NOT reproduced by its corpus witness: if it was repaired, turn its record in known_findings.json into 'fixed' and update the model")
 			}
@@ -636,6 +698,6 @@ func finish(rep *report.Report, replay string, known map[string]int, skipped, in
 	}
 	rep.Notes = append(rep.Notes,
 		"'required' is thriftrw's effective requiredness (declared required without a default); edits producing `required … = default` are generated (edit_group reqdefault) and expected to be silent; histogram required_with_default counts cases where a literal reading would differ",
-		"go-git's tree diff and rename detection are not modelled: the changed-file list the model's run loop iterates over is the one the real findChangedThrift returns (verifhook.GitChangedThrift)")
+		"go-git's tree diff and rename detection are not modelled: op R runs the model's loop over the change list the real findChangedThrift returns (verifhook.GitChangedThrift), op T over the harness's own tree diff with randomly drawn rename pairings (the result must not depend on the pairing); the two lists are also compared as sets")
 	return 0
 }
